@@ -283,6 +283,51 @@ func c12(c *Ctx) {
 		ne, nd = count(enc, encName), count(dec, decName)
 		r.Check(ne > 0 && nd > 0 && ne == nd, "R12.C", key, c.pos(enc.Pos()), sprintf("%d × %s on the write side, %d × %s on the read side", ne, shortCallee(encName), nd, shortCallee(decName)))
 	}
+	// the file itself: what Store writes is encoding/json's rendering of the file structure, what Load parses is
+	// parsed by encoding/json into the same structure (a hand-made rendering - %q is Go quoting, not JSON quoting -
+	// differs from it for some host names)
+	if st, ldr := c.P.Func(load.SessPkg, "*genericFileSessionLoader", "Store"), c.P.Func(load.SessPkg, "*genericFileSessionLoader", "Load"); st != nil && ldr != nil {
+		nSink := 0
+		var bad []string
+		for _, cs := range an.Calls(st) {
+			idx := -1
+			switch cs.Name {
+			case "io/ioutil.WriteFile", "os.WriteFile":
+				idx = 1
+			case "(*os.File).Write", "(*os.File).WriteString", "(*bufio.Writer).Write", "(*bufio.Writer).WriteString", "io.WriteString":
+				idx = 1
+			}
+			args := an.CallArgs(cs.Common)
+			if idx < 0 || idx >= len(args) {
+				continue
+			}
+			nSink++
+			if !tr.AllOrigins(args[idx], "call:encoding/json.Marshal") {
+				bad = append(bad, "the bytes written at "+c.pos(cs.Pos())+" are "+simplifyOrigin(tr.OriginString(args[idx])))
+			}
+		}
+		nm := 0
+		for _, cs := range an.Calls(st) {
+			if cs.Name == "encoding/json.Marshal" || cs.Name == "encoding/json.MarshalIndent" {
+				if mi, ok := cs.Common.Args[0].(*ssa.MakeInterface); ok && strings.HasSuffix(mi.X.Type().String(), "session.tokenStorageFormat") {
+					nm++
+				}
+			}
+		}
+		nu := 0
+		for _, cs := range an.Calls(ldr) {
+			if cs.Name == "encoding/json.Unmarshal" && len(cs.Common.Args) == 2 {
+				if mi, ok := cs.Common.Args[1].(*ssa.MakeInterface); ok && strings.HasSuffix(mi.X.Type().String(), "session.tokenStorageFormat") {
+					nu++
+				}
+			}
+		}
+		if nSink == 0 {
+			r.Undecide("R12.C", "pair:json", c.pos(st.Pos()), "no write of bytes recognised in Store")
+		} else {
+			r.Check(len(bad) == 0 && nm > 0 && nu > 0, "R12.C", "pair:json", c.pos(st.Pos()), sprintf("%d write(s) in Store, %d json.Marshal of the file structure, %d json.Unmarshal into it in Load; %s", nSink, nm, nu, strings.Join(bad, "; ")))
+		}
+	}
 	pair("pair:base64", ws, rs, "(*encoding/base64.Encoding).EncodeToString", "(*encoding/base64.Encoding).DecodeString")
 	pair("pair:salt-bytes", ws, rs, "(encoding/binary.littleEndian).PutUint64", "(encoding/binary.littleEndian).Uint64")
 	// same base64 alphabet on both sides
